@@ -220,3 +220,33 @@ func limitOperands() []Operand {
 
 var _ = big.NewInt
 var _ = apd.New
+
+// wideEdge is the WIDE-EDGE family (round 12): operand pairs whose coefficients together exceed one machine word,
+// each with the contexts that place the exact product's adjusted exponent one or two steps inside and outside
+// MinExponent / MaxExponent, at precisions just below, at and above the product's digit count.
+type wideEdgeCase struct {
+	X, Y Operand
+	Ctxs []CtxCase
+}
+
+func wideEdge() []wideEdgeCase {
+	wc := []*big.Int{bigOf("20000000000000"), bigOf("3000000000"), bigOf("99999999999"), bigOf("10000000000000000000"), pow2(64),
+		bigOf("123456789012345678901"), bigOf("31622776601683793320"), bigOf("5000000000000")}
+	var out []wideEdgeCase
+	for ia, a := range wc {
+		for ib, b := range wc {
+			w := wideEdgeCase{X: FinBig(a, -60, ia%2 == 1), Y: FinBig(b, -63, ib%3 == 1)}
+			nd := int32(len(new(big.Int).Mul(a, b).String()))
+			adj := -123 + nd - 1
+			for _, p := range []uint32{uint32(nd) - 1, uint32(nd), uint32(nd) + 1, 60} {
+				for _, m := range []apd.Rounder{apd.RoundHalfEven, apd.RoundDown, apd.RoundCeiling} {
+					for dl := int32(-1); dl <= 2; dl++ {
+						w.Ctxs = append(w.Ctxs, MkCtx(p, adj+dl, adj+dl+200, m, 0), MkCtx(p, adj-dl-200, adj-dl, m, 0))
+					}
+				}
+			}
+			out = append(out, w)
+		}
+	}
+	return out
+}
